@@ -32,6 +32,8 @@ IS_REL = "packages/llama-index-workflows/src/workflows/runtime/types/internal_st
 
 def run(chk) -> None:
     repo = chk.repo
+    from ._engine import engine_view
+    chk.extra["helpers_inlined"] = engine_view(repo)
     m, ae = repo.func(f"{CL}:_process_add_event_tick")
     tick = param(ae, 0)
     cfg = CFG(ae)
@@ -61,7 +63,7 @@ def run(chk) -> None:
                        reason="after Context.from_dict the waiter has requirements={} until the step replays to wait_for_event: any event of the type is accepted, also one violating the requested requirements")
             # the event handed to the step is the tick's event
             res = [s for s in ast.walk(lp) if isinstance(s, ast.Assign) and ast.unparse(s.targets[0]) == f"{w}.resolved_event"]
-            chk.ob("C10.R2", "the matched event is recorded as the waiter's result", bool(res) and all(ast.unparse(s.value) == f"{tick}.event" for s in res), m=m, node=lp, fn=ae, instance="match:records-event",
+            chk.ob("C10.R2", "the matched event is recorded as the waiter's result", bool(res) and all(ast.unparse(expand(s.value, s, depth=2)) == f"{tick}.event" for s in res), m=m, node=lp, fn=ae, instance="match:records-event",
                    reason="resolved_event is not set to the matching event")
             ea = c.args[0] if c.args else None
             ev = kwarg(ea, "event", 0) if isinstance(ea, ast.Call) else None
